@@ -24,6 +24,8 @@ mod write_printer;
 
 #[cfg(test)]
 mod test_utils;
+#[cfg(rusty_basic_verif)]
+pub mod verif;
 #[cfg(test)]
 mod tests;
 
